@@ -17,6 +17,9 @@ func c08Exec(op string) string {
 	case "vfk":
 		sep := c.str()
 		m := c.mapVal()
+		if len(op)%2 == 0 {
+			internShared(m) // read-only queries: a Map may reference one sub-value from several places
+		}
 		key := c.str()
 		subs := c.strList()
 		if c.err != nil {
@@ -52,6 +55,9 @@ func c08Exec(op string) string {
 		return showRes(vs, err)
 	case "pfk":
 		m := c.mapVal()
+		if len(op)%2 == 0 {
+			internShared(m) // read-only queries: a Map may reference one sub-value from several places
+		}
 		key := c.str()
 		if c.err != nil {
 			return "bad-op " + c.err.Error()
